@@ -280,6 +280,41 @@ func propStr(p *MProposal) string {
 	return sb.String()
 }
 
+// openPropCmp: an open proposal is compared without the provisional "major option" (only the decision taken when the
+// voting closes is pinned by the properties).
+func openPropCmp(p *MProposal) string {
+	q := *p
+	q.Major = nil
+	return propStr(&q)
+}
+
+// frozenPropCmp: a closed proposal is compared without the order of its options and without the voters' choice
+// indexes (which refer to that order); tallies, voters' powers and the winning option are compared.
+func frozenPropCmp(p *MProposal) string {
+	var sb strings.Builder
+	fmt.Fprintf(&sb, "start=%d end=%d apply=%d total=%d major=%d type=%d voters=[", p.Start, p.End, p.Applying, p.TotalPower, p.Majority, p.OptType)
+	var ks []string
+	for k := range p.Voters {
+		ks = append(ks, k)
+	}
+	sort.Strings(ks)
+	for _, k := range ks {
+		fmt.Fprintf(&sb, "%s:%d ", k[:8], p.Voters[k].Power)
+	}
+	sb.WriteString("] options={")
+	var os []string
+	for _, o := range p.Options {
+		os = append(os, fmt.Sprintf("%q:%d ", o.Option, o.Votes))
+	}
+	sort.Strings(os)
+	sb.WriteString(strings.Join(os, ""))
+	sb.WriteString("}")
+	if p.Major != nil {
+		fmt.Fprintf(&sb, " majorOption=%q:%d", p.Major.Option, p.Major.Votes)
+	}
+	return sb.String()
+}
+
 func rewardStr(r *MReward) string {
 	return fmt.Sprintf("issued=%s withdrawn=%s slashed=%s cumulated=%s height=%d", r.Issued, r.Withdrawn, r.Slashed, r.Cumulated, r.Height)
 }
@@ -401,7 +436,7 @@ func diffStates(exp, obs *MState) []Diff {
 				out = append(out, Diff{Area: pair.area, Key: k, Msg: "unexpected " + propStr(o)})
 			case o == nil:
 				out = append(out, Diff{Area: pair.area, Key: k, Msg: "missing " + propStr(e)})
-			case propStr(e) != propStr(o):
+			case pair.area == "proposal" && openPropCmp(e) != openPropCmp(o), pair.area == "frozenprop" && frozenPropCmp(e) != frozenPropCmp(o):
 				out = append(out, Diff{Area: pair.area, Key: k, Msg: "expected " + propStr(e) + " observed " + propStr(o)})
 			}
 		}
